@@ -21,12 +21,10 @@ NOT_DECIDED = ["workers>1 interleavings", "rate-limit timing", "'at most one fur
 EXPLANATION = ("Each clause of C12 that lives in a sequential kernel is a postcondition on the real function (re-read from /repo on every run) "
                "and is discharged by z3 for all inputs.")
 
-Control = Obj(EC, stop_event=Opq("Event"), max_failures=Opt(Int), _failures_counter=Int, has_reached_the_failure_limit=Bool)
+from contracts import engine_common as E
 
-R.opaque_classes["Event"] = "threading:Event"
-R.contract("threading:Event.is_set", args={"self": Opq("Event")}, returns=Bool, pure=True, trusted=True,
-           note="E5: reading the stop flag is a pure function of the event during one sequential call")
-R.alias("is_set", "threading:Event.is_set")
+E.install_common(R)
+Control = Obj(EC, stop_event=E.StopEvent(), max_failures=Opt(Int), _failures_counter=Int, has_reached_the_failure_limit=Bool)
 
 INV = "(self.max_failures is None or self._failures_counter < self.max_failures or self.has_reached_the_failure_limit)"
 R.contract(
@@ -50,13 +48,20 @@ R.contract(
     EC + ".is_stopped",
     prop="C12",
     args={"self": Control},
-    ensures={"def": "iff(result, is_set(self.stop_event) or self.has_reached_the_failure_limit)"},
+    ensures={"def": "iff(result, self.stop_event.flag or self.has_reached_the_failure_limit)"},
+)
+R.contract(
+    EC + ".stop",
+    prop="C12",
+    args={"self": Control},
+    ensures={"flag_set": "self.stop_event.flag is True", "limit_flag_untouched": "self.has_reached_the_failure_limit == old(self.has_reached_the_failure_limit)"},
+    inline=True,
 )
 R.contract(
     EC + ".is_interrupted",
     prop="C12",
     args={"self": Control},
-    ensures={"def": "iff(result, is_set(self.stop_event))"},
+    ensures={"def": "iff(result, self.stop_event.flag)"},
 )
 
 # Lemma L12a: by induction over count_failure calls (invariant above + counted_once):
@@ -72,6 +77,8 @@ R.lemma(
     ],
     claim="flag",
 )
+
+E.register_unit_execute(R, "C12")
 
 LEVEL_TEXT = ("Deductive: every sequential clause of C12 (failure counter, limit flag, stop-dominates-send, unique-inputs cache, settings merge, "
               "step limits) is a postcondition / lemma over the real functions, discharged by z3 for all inputs with no bound. "
